@@ -85,6 +85,7 @@ def run(out, tier):
     # ---- L3 on the MIR: every mutator of the layout keeps it ordered ---------------------------------------------------
     layout_mutators(out, eng)
     packed_flattening(out, eng)
+    packed_spans_inside_word(out, eng)
     # ---- L1 (+ which_power_of_2) with Kani ---------------------------------------------------------------------------
     names = L1 + ["pow2_exact_16", "pow2_rejects_16"] + (L1_THOROUGH + ["pow2_exact_64", "pow2_rejects_64"] if tier == "thorough" else [])
     out.bounds.append("which_power_of_2: 2^k -> Some(k) and 2^k + 2^j -> None for k < 16 (quick) / k < 64 (thorough); "
@@ -268,6 +269,107 @@ def packed_flattening(out, eng):
             else:
                 out.obligation(oid, "mirsmt", "cex-not-reproduced", dt, witness=False, note=wit, replay=rep)
                 out.inconc("%s: %s, but no layout entry outside its slot was observed natively" % (oid, wit))
+
+
+def packed_spans_inside_word(out, eng):
+    """L5: the packed-encoding lift accepts a set of spans only after its validity loop; one iteration of that loop, from an
+    ARBITRARY loop state and an arbitrary span (offset, size), must leave `spans_are_valid` false whenever the span ends
+    beyond bit 256 (a `Shifted` element carries the exponent of any power of two the bytecode multiplies by)."""
+    import re
+    from mirsmt.interp import Bool, Cell, Int, Lazy, Ref
+    from .c13 import loop_head
+    f = eng.fns.get("lift_packed_encodings")
+    oid = "L5.packed_spans_inside_word"
+    if f is None:
+        out.notes.append("L5: lift_packed_encodings not found; nothing to decide")
+        return
+    valid_l, last_l = f.debug.get("spans_are_valid"), f.debug.get("last_position")
+    if not valid_l or not last_l:
+        out.inconc("L5: the validity loop's variables were not found in lift_packed_encodings")
+        return
+    # the loop: the innermost one around a block that assigns `last_position`
+    site = None
+    for bb, b in f.blocks.items():
+        if b.cleanup:
+            continue
+        for st in b.stmts:
+            if re.match(r"^%s = " % re.escape(last_l), st.strip()) and "const 0_usize" not in st:
+                site = bb
+    head = loop_head(f, site) if site else None
+    if head is None:
+        out.inconc("L5: the validity loop was not found")
+        return
+    OFF, SIZE = z3.BitVec("span_offset", 64), z3.BitVec("span_size", 64)
+    t0 = time.time()
+
+    def span_next(ctx, a, ty, c):
+        if ctx.choose(2) == 1:
+            from mirsmt.summaries import none
+            return none(ty)
+        from mirsmt.summaries import some
+        m = re.match(r"^(?:[\w:]+::)?Option<&(.*)>$", ty.strip())
+        span = Agg(m.group(1) if m else "vm::value::PackedSpan<()>", {}, None, "span")
+        cell = Cell(span, "span")
+        ctx.span_cell = cell
+        return some(ty, Ref(cell, ()))
+    ex = eng.explorer(extra=[(r"^<.*Iter<'_, .*PackedSpan<.*>> as Iterator>::next$", span_next)], havoc_unknown=True, max_visits=3, max_seconds=60)
+
+    def body(ctx):
+        frame = {"locals": {}, "fn": f, "visits": {}}
+        for l, t in f.locals.items():
+            t = t.strip()
+            frame["locals"][l] = Cell(Bool(False), l) if t == "bool" and l != valid_l else Cell(Lazy(t, "L%s" % l), l)
+        frame["locals"][valid_l].v = Bool(z3.Bool("valid_before"))
+        ctx.inline_filter = lambda name: False
+        ctx.stop_at = {head: 2}
+        ctx.frame0 = frame
+        r = ctx.run_fn(f, [], start=head, frame=frame)
+        return r, ctx
+    try:
+        paths = ex.explore(body)
+    except Unsupported as e:
+        out.obligation(oid, "mirsmt", "inconclusive", time.time() - t0, witness=False, note=str(e))
+        out.inconc("%s: %s" % (oid, e))
+        return
+    bad, seen = None, 0
+    for p in paths:
+        if p.kind != "cut":
+            continue
+        ctx = p.ctx
+        cell = getattr(ctx, "span_cell", None)
+        if cell is None:
+            continue
+        seen += 1
+        span = cell.v
+        io = eng.src.field_index("vm::value::PackedSpan", "offset")
+        isz = eng.src.field_index("vm::value::PackedSpan", "size")
+        # never-inspected fields of the span are the named symbols span.<index>
+        off = ctx.force(span.fields[io]).e if io in span.fields else z3.BitVec("span.%d" % io, 64)
+        size = ctx.force(span.fields[isz]).e if isz in span.fields else z3.BitVec("span.%d" % isz, 64)
+        valid_after = ctx.force(ctx.frame0["locals"][valid_l].v)
+        s_ = z3.Solver()
+        for c_ in p.pc:
+            s_.add(c_)
+        s_.add(valid_after.e, z3.ULE(off, 255), z3.ULE(size, 256), z3.UGT(off + size, 256))
+        if s_.check() == z3.sat:
+            m = s_.model()
+            bad = ("a span at bit %d of %d bits is accepted although it ends beyond bit 256" % (ev(m, off), ev(m, size)), m)
+    dt = time.time() - t0
+    what = "the packed-encoding lift accepts spans that end beyond the 256-bit word"
+    if bad is None and seen:
+        out.obligation(oid, "mirsmt", "holds", dt, witness=True, paths=seen, head=head,
+                       note="one iteration of the validity loop from an arbitrary state: `spans_are_valid` stays true only for a span inside the word")
+    elif bad is None:
+        out.obligation(oid, "mirsmt", "vacuous", dt, witness=False)
+        out.inconc("%s: no completed iteration of the validity loop explored" % oid)
+    else:
+        confirmed, rep = native.scenario(out, "layout_family_sorted", {"check": 3})
+        if confirmed:
+            out.obligation(oid, "mirsmt", "violated", dt, witness=True, note="%s: %s" % (what, bad[0]), replay=rep)
+            out.violation(C.Violation(key="packed-span-outside-word", what="%s: %s (%s)" % (oid, what, bad[0]), replay={"engine": "mirsmt", "native": rep}))
+        else:
+            out.obligation(oid, "mirsmt", "cex-not-reproduced", dt, witness=False, note=bad[0], replay=rep)
+            out.inconc("%s: %s, but no layout entry outside its slot was observed natively" % (oid, bad[0]))
 
 
 def _captures_by_ref(f):
